@@ -13,6 +13,10 @@ from harness.framework import PropCheck, Violation
 from pulser import Pulse
 
 
+seqgen.INT_IDS_RATE = 0.2
+seqgen.SCALAR_TARGET_RATE = 0.25
+
+
 class SeqProp(PropCheck):
     focus = None
     shard = 60
